@@ -897,7 +897,11 @@ def cm_enter(interp, st, cm, is_async, node=None):
         if isinstance(h, HObj):
             m = interp.class_attr(h.cls, '__aenter__' if is_async else '__enter__')
             if m is not None:
-                yield from interp.call(st, VConst(m), [cm], {}, node)
+                for s1, r in interp.call(st, VConst(m), [cm], {}, node):
+                    if isinstance(r, VCoro):
+                        yield from do_await(interp, s1, r, node)
+                    else:
+                        yield s1, r
                 return
     raise Unsupported(f"context manager {cm}", node)
 
@@ -910,7 +914,13 @@ def cm_exit(interp, st, cm, e, is_async, node=None):
         args = [cm, VNone, VNone, VNone]
     else:
         args = [cm, VConst(e.cls), e, VNone]
-    for s1, r in interp.call(st, VConst(m), args, {}, node):
+    def awaited():
+        for s0, r0 in interp.call(st, VConst(m), args, {}, node):
+            if isinstance(r0, VCoro):
+                yield from do_await(interp, s0, r0, node)
+            else:
+                yield s0, r0
+    for s1, r in awaited():
         if isinstance(r, Raise):
             yield s1, r
             continue
@@ -923,14 +933,26 @@ def cm_exit(interp, st, cm, e, is_async, node=None):
 
 
 def do_await(interp, st, v, node=None):
-    """`await x`: coroutine calls were already executed eagerly (cooperative scheduling: a callee
-    runs to completion unless a model says otherwise), so awaiting a plain value returns it."""
+    """`await x`: coroutine objects run now (cooperative scheduling: the awaited coroutine runs until it
+    finishes, yielding to the ready queue only where it awaits something unfinished); objects of the asyncio
+    models define __await_model__; awaiting a plain value returns it."""
+    if isinstance(v, VCoro):
+        if v.started:
+            yield st, exc(RuntimeError, "cannot reuse already awaited coroutine")
+            return
+        v.started = True
+        yield from v.thunk(st)
+        return
     if isinstance(v, VRef):
         h = st.heap[v.addr]
         if isinstance(h, HObj):
             m = interp.class_attr(h.cls, '__await_model__')
             if m is not None:
-                yield from interp.call(st, VConst(m), [v], {}, node)
+                for s1, r in interp.call(st, VConst(m), [v], {}, node):
+                    if isinstance(r, VCoro):
+                        yield from do_await(interp, s1, r, node)
+                    else:
+                        yield s1, r
                 return
     yield st, v
 
